@@ -44,7 +44,7 @@ def describe(tier):
         'rule': 'E1: every circuit of F(n,k,A) (all gate types/arities, operand tuples with '
         'repeats, order significant) x every output policy (none, all sequences of <=2 nodes '
         'incl. inputs and repeats, all sinks) x all 2^n assignments x every evaluation entry '
-        'point; operator tables on all Boolean operand vectors (arity<=4 for n-ary); storage '
+        'point (for n+k<=3 also on copy.deepcopy / pickle copies of the circuit object); operator tables on all Boolean operand vectors (arity<=4 for n-ary); storage '
         'permutations via bench text and relabelings; the duplicated gate tables of '
         'circuit_search/_utils/subcircuit compared entry by entry; Tseytin templates (both polarities), bench converters and fix_gate type pinning on one-gate circuits of every type, arity 2..5 and operand tuple. A case is one '
         '(circuit, output policy); distinct = distinct gate truth-table signatures.',
@@ -182,6 +182,33 @@ def check_circuit(n, gates, acc, policies=None, entry_all=True):
                         acc.violation(f'{entry}/modifies-its-argument', case, f'keys now {sorted(shared)}')
                         shared = {labs[i]: x[i] for i in range(n)}
         entry_all = False  # the outputs= sweep does not depend on the policy: once is enough
+    if n + k <= 3:
+        # the same circuit after copy.deepcopy / pickle: every entry point, last policy
+        outs = pols[-1] if pols else ()
+        olabs = [labs[o] for o in outs]
+        for tag, cv in space.identity_variants(c):
+            case = lambda: {**space.spec_json(n, gates, outs), 'object': tag}  # noqa: E731
+            acc.transitions += 4
+            ok, gtt = guarded(acc, f'get_gates_truth_table[{tag}]', case, cv.get_gates_truth_table)
+            if ok and any(list(gtt.get(l, [])) != refmodel.tt_rows(ref[l], n) for l in labs):
+                acc.violation('get_gates_truth_table/wrong-value-on-copied-object', case, tag)
+            ok, tt = guarded(acc, f'get_truth_table[{tag}]', case, cv.get_truth_table)
+            if ok and [list(r) for r in tt] != [refmodel.tt_rows(ref[l], n) for l in olabs]:
+                acc.violation('get_truth_table/wrong-value-on-copied-object', case, tag)
+            for j, x in enumerate(asg):
+                a = {labs[i]: x[i] for i in range(n)}
+                ok, full = guarded(acc, f'evaluate_full_circuit[{tag}]', case, cv.evaluate_full_circuit, a)
+                if ok and any(full.get(l) is not bool((ref[l] >> j) & 1) for l in labs):
+                    acc.violation('evaluate_full_circuit/wrong-value-on-copied-object', case, tag)
+                    break
+                ok, res = guarded(acc, f'evaluate_circuit[{tag}]', case, cv.evaluate_circuit, a)
+                if ok and any(res.get(l) is not bool((ref[l] >> j) & 1) for l in olabs):
+                    acc.violation('evaluate_circuit/wrong-value-on-copied-object', case, tag)
+                    break
+                for oi in range(len(outs)):
+                    ok, v = guarded(acc, f'evaluate_at[{tag}]', case, cv.evaluate_at, list(x), oi)
+                    if ok and v is not bool((ref[olabs[oi]] >> j) & 1):
+                        acc.violation('evaluate_at/wrong-value-on-copied-object', case, tag)
     acc.sample(space.spec_json(n, gates, pols[-1] if pols else ()))
 
 
